@@ -33,8 +33,8 @@ package cron
 //@   also-modifies rescheduled
 
 //@ func (*Cron).start
-//@   assert[C16.fires_only_when_due] at "c.resetTimer()": nanos(now) >= nanos(job.Next)
-//@   assert[C16.pops_under_lock]     at "c.resetTimer()": heldW(c.Mutex)
+//@   assert[C16.fires_only_when_due] at "func(job *CronJob)": nanos(now) >= nanos(job.Next)
+//@   assert[C16.pops_under_lock]     at "func(job *CronJob)": heldW(c.Mutex)
 
 // (assumed: the job's function does not write the job record, and reaches the timeline only through the cron's own
 // operations, each of which re-establishes the representation invariant - so the invariant survives the call)
@@ -147,5 +147,26 @@ package cron
 //@ func (*Cron).start
 //@   assume-entry sortedTL(c.Timeline) && uniqueTL(c.Timeline)
 //@   loop 1: invariant[C16.loop_keeps_sorted] sortedTL(c.Timeline) && uniqueTL(c.Timeline)
-//@   assert[C16.pop_keeps_sorted]        at "c.resetTimer()": sortedTL(c.Timeline)
-//@   assert[C16.popped_job_not_pending]  at "c.resetTimer()": jobNotIn(c.Timeline, job)
+//@   assert[C16.pop_keeps_sorted]        at "func(job *CronJob)": sortedTL(c.Timeline)
+//@   assert[C16.popped_job_not_pending]  at "func(job *CronJob)": jobNotIn(c.Timeline, job)
+
+// ---- C16: the timer follows the head of the timeline ---------------------------------------------------
+//@ ghost timerResets int
+//@ func (*Cron).resetTimer
+//@   ghost-ensures timerResets == old(timerResets) + 1
+//@   also-modifies timerResets
+//@ func (*Cron).insert
+//@   ensures[C16.insert_reaims_the_timer] timerResets > old(timerResets)
+
+// A recurring job is put back after every run, whatever the limit (only Add checks the limit).
+//@ ghost inserts int
+//@ func (*Cron).insert
+//@   ghost-ensures inserts == old(inserts) + 1
+//@   also-modifies inserts
+//@ func (*Cron).rem
+//@   ensures[C16.rem_never_fails] result1 == nil
+//@ func (*Cron).schedule
+//@   ensures[C15+C16.schedule_without_limit_always_inserts] !checkLimit ==> result == nil && inserts == old(inserts) + 1
+//@   ensures[C16.schedule_inserts_iff_accepted] (result == nil) == (inserts == old(inserts) + 1)
+//@ func (*Cron).run
+//@   ensures[C15+C16.recurring_job_is_reinserted] old(job.Expression) != nil ==> inserts == old(inserts) + 1
